@@ -28,6 +28,8 @@ LEVELS = {
     "C09": "model_checking",
     "C04": "model_checking",
     "C11": "model_checking",
+    "C05": "model_checking",
+    "C08": "model_checking",
 }
 
 # property -> vlib module with run_property(prop, tier, report)
@@ -46,6 +48,8 @@ RUNNERS = {
     "C09": "agg",
     "C04": "wac",
     "C11": "targets",
+    "C05": "decl",
+    "C08": "decl",
 }
 
 
